@@ -5,7 +5,7 @@ use crate::storage::FileManager;
 use acme_common::b64_decode;
 use acme_common::crypto::{HashFunction, JwsSignatureAlgorithm, KeyType, SubjectAttribute};
 use acme_common::error::Error;
-use glob::glob;
+use glob::{glob, Pattern};
 use log::info;
 use serde::{de, Deserialize, Deserializer};
 use std::collections::{BTreeSet, HashMap};
@@ -722,8 +722,11 @@ fn init_directories(config: &Config) -> Result<(), Error> {
 }
 
 fn get_cnf_path(from: &Path, file: &str) -> Result<Vec<PathBuf>, Error> {
-	let mut path = from.to_path_buf().canonicalize()?;
-	path.pop();
+	let mut dir = from.to_path_buf().canonicalize()?;
+	dir.pop();
+	let err = format!("{dir:?}: invalid UTF-8 path");
+	// Only `file` is a pattern: the directory of the including file is taken literally.
+	let mut path = PathBuf::from(Pattern::escape(dir.to_str().ok_or(err)?));
 	path.push(file);
 	let err = format!("{path:?}: invalid UTF-8 path");
 	let raw_path = path.to_str().ok_or(err)?;
